@@ -144,6 +144,12 @@ func emitC03(c *ctx, p *tak.Position, kind string) {
 }
 
 func runC03(c *ctx) {
+	if c.tier == "replay" {
+		if p, err := decodeEnc(readReplay(c).Input); err == nil {
+			emitC03(c, p, "replay")
+		}
+		return
+	}
 	r := c.r
 	for g := 0; g < 30*c.scale; g++ {
 		size := 3 + g%6
